@@ -184,3 +184,7 @@ def run(ctx):
                 ctx.violation(KNOWN_SHAPE if has_off else None, "filtered and unfiltered tokenizers differ on a custom extractor list",
                               dict(stream="sublists", text=d, n=len(sub)))
     ctx.streams += ["tokenizers", "sublists"]
+    # the executable tokenizer model on both extractor selections (every extractor / Aho-Corasick pre-filter)
+    from harness import e2e
+    docs_e = e2e.short_docs(rng, 40 if th else 6, max_len=120)
+    e2e.run_extract(ctx, docs_e, len(docs_e))
